@@ -258,6 +258,11 @@ fn check_story_paths(root: &Value) -> Result<(), CompilerError> {
     collect_container_paths(root, &RuntimePath::absolute(""), &mut references);
 
     for (origin, target) in references {
+        if target.is_empty() {
+            return Err(CompilerError::invalid_source(
+                "Divert target is empty".to_owned(),
+            ));
+        }
         let parsed = RuntimePath::parse(&target, target.starts_with('.'));
         if !path_exists(root, &parsed.resolve_from(&origin)) {
             return Err(CompilerError::invalid_source(format!(
